@@ -660,7 +660,10 @@ fn script(c: &Case, chunks_all: &[Vec<u8>]) -> Script {
 }
 
 fn inner_for(c: &Case, sc: &Script) -> (Inner, BodyProbe) {
-    let body = ScriptBody::new(sc.steps.clone());
+    let mut body = ScriptBody::new(sc.steps.clone());
+    // half of the inner bodies say exactly when they have ended (hyper's do); what the layer still has buffered then
+    // (e.g. the trailers frame that came with the last chunk) must still come out
+    body.eos = c.seg % 2 == 0 && c.ct % 2 == 0;
     let probe = body.probe.clone();
     let mut resp = Response::new(SegBody::new(body, c.seg));
     let ct = match c.ct {
